@@ -535,6 +535,9 @@ def run_check(prop, tier, seed):
         for r in range(1, rounds):   # further rounds of the random parts (duplicates are dropped below)
             gen += prop.cases(tier, random.Random(rng.getrandbits(64) + r))
         nworkers = workers_for(prop)
+        if rounds > 1:
+            notes.append("thorough tier: %d independently seeded rounds of the random generators, duplicates dropped" % rounds)
+        notes.append("implementation / model runs: %d process(es) side by side, batches of 2000 cases" % nworkers)
         seen = set()
         for l in corpus + gen:
             if l not in seen:
